@@ -3,6 +3,7 @@ import SeqVerif.Model.AggWalk
 import SeqVerif.Model.AggRun4
 import SeqVerif.Model.AggOut
 import SeqVerif.Model.AggE2E
+import SeqVerif.Model.AggLimits
 import SeqVerif.Extracted.C06
 set_option linter.unusedVariables false
 /-!
@@ -117,6 +118,21 @@ theorem c06_positional_labels (rev : Bool) (postings : List (List Nat)) (p : Nat
       ⟨[7], by simp, by simp⟩
   · exact (mem_buildStream rev _ (7, 1) (by intro l hl; simp at hl; rcases hl with rfl | rfl <;> simp)).mpr
       ⟨[7], by simp, by simp⟩
+
+/-- **aggregation limits below their thresholds change nothing** (the seq-db binary runs with limits 2000 /
+1000000 / 100000; they switch on the source counting of `ConsumeTokenSource`): when the field has at most `limit`
+distinct tokens in the window, the limited iterator never returns the limit error and answers every LID exactly as
+the unlimited one - so every theorem about `walk` / `events` holds with limits configured. -/
+theorem c06_limits_transparent (rev : Bool) (limit : Nat) (s : Stream) (lids : List Nat) (hw : SourcesWithin limit s) :
+    walkLim rev limit s [] lids = some (walk rev s lids) :=
+  walkLim_eq rev limit s s [] lids hw (fun _ h => h) List.nodup_nil (fun _ h => by cases h)
+
+/-- **the token cache of `ValueBySource` is an optimisation**: looked up and stored under the source, a coherent
+cache answers the token text `GetValByTID(tids[source])` itself and stays coherent, whatever the counting state -/
+theorem c06_token_cache (count : Nat → Nat) (val : Nat → String) (cache : List (Nat × String)) (source : Nat)
+    (h : CacheOk val cache) :
+    (valueBySource count val cache source).1 = val source ∧ CacheOk val (valueBySource count val cache source).2 :=
+  valueBySource_eq count val cache source h
 
 /-- **lock-step walk** (`SourcedNodeIterator.ConsumeTokenSource` over `BuildORTreeAgg`): for result LIDs in strict
 iteration order, the successive calls return for every LID a token of the field whose posting list holds the LID,
@@ -457,6 +473,10 @@ speak about the code -/
 theorem c06_x_positional_labels :
     activeLeafPerTid = true ∧ sealedLeafPerTid = true ∧ wrapWithSource = ["= NewSourcedNodeWrapper(n, i)"] := by decide
 
+/-- `ValueBySource` looks the cache up and stores into it under the same key, the source (the model's
+`valueBySource`; source indexes and TIDs share the key type, so a different store key would alias) -/
+theorem c06_x_token_cache : tokenCacheKeys = ["source", "source"] := by decide
+
 /-- histogram bucket rule of `iterateEvalTree`, accumulation in `MergeQPRs`, time bins of `provideExtractTimeFunc` -/
 theorem c06_x_hist :
     histBucketAssigns = [":= mid", "-= bucket % seq.MID(params.HistInterval)"] ∧
@@ -510,5 +530,11 @@ example :
     have := congrArg String.toList h
     simpa using this
   · intro ev _ s _; rfl
+
+/-- hypotheses of `c06_limits_transparent` / `c06_token_cache`: two distinct sources within a limit of 2000; the
+empty cache is coherent; and a limit of 1 makes the same walk fail -/
+example : walkLim false 2000 [(1, 0), (2, 0), (3, 1)] [] [1, 2, 3, 4] = some [some 0, some 0, some 1, none] ∧
+    walkLim false 1 [(1, 0), (2, 0), (3, 1)] [] [1, 2, 3, 4] = none ∧ CacheOk (fun i => toString i) [] := by
+  refine ⟨by decide, by decide, fun _ h => by cases h⟩
 
 end SV.Props.C06
